@@ -20,6 +20,13 @@ func RefKey(r *vh.Rand, et int32) []byte {
 	return kcrypto.RandomToKey(et, r.Bytes(kcrypto.SeedLen(et)))
 }
 
+// SharedKey returns key bytes that are IDENTICAL for every etype with the same key length (aes128-sha1, aes128-sha2 and
+// rc4 share one 16-byte value; aes256-sha1 and aes256-sha2 one 32-byte value): a derivation that is cached or selected by
+// the key bytes alone, without the etype, only goes wrong when the same bytes are used with two families in one process.
+func SharedKey(et int32, idx int) []byte {
+	return kcrypto.RandomToKey(et, vh.NewRand("shared-key", kcrypto.KeyLen(et), idx).Bytes(kcrypto.SeedLen(et)))
+}
+
 // Epoch is the start of the virtual clock inside a synctest bubble.
 var Epoch = time.Date(2000, 1, 1, 0, 0, 0, 0, time.UTC)
 
